@@ -1,6 +1,7 @@
 package media
 
 import (
+	"github.com/cnotch/ipchub/av/format/flv"
 	"github.com/cnotch/ipchub/av/format/rtp"
 	"github.com/cnotch/ipchub/media/cache"
 	"github.com/cnotch/ipchub/zzverif/symapi"
@@ -59,6 +60,55 @@ func VerifJoinRace() {
 	}
 	for i := 2; i < len(all); i++ {
 		symapi.Assert(count[i] >= 1, "join-no-gap")
+	}
+	symapi.Reach("end")
+}
+
+// VerifFlvJoinRace (C02/C01): the same for an FLV player joining while the FLV muxer
+// publishes a tag: media tags after the replayed key frame arrive once each, in order,
+// none missing.
+func VerifFlvJoinRace() {
+	symapi.Deterministic(true)
+	s := verifStream("/a")
+	s.flvCache = cache.NewFlvCache(true)
+	mk := func(ts uint32, b0, b1 byte) *flv.Tag {
+		return &flv.Tag{TagType: flv.TagTypeVideo, Timestamp: ts, Data: []byte{b0, b1, 0, 0, 0}}
+	}
+	key, p1, p2 := mk(1000, 0x17, 1), mk(1040, 0x27, 1), mk(1080, 0x27, 1)
+	all := []*flv.Tag{key, p1, p2}
+	s.WriteFlvTag(key)
+	s.WriteFlvTag(p1)
+	symapi.Deterministic(false)
+	rec := &verifConsumer{}
+	symapi.Go(func() { s.WriteFlvTag(p2) }) // the muxer's next tag
+	cid := s.StartConsume(rec, FLVPacket, "late flv joiner")
+	symapi.Quiesce()
+	c := verifConsumption(s, cid)
+	var d []queue.Elem
+	for _, p := range rec.got {
+		d = append(d, p)
+	}
+	if c != nil {
+		d = append(d, c.recvQueue.Queue().Elems()...)
+	}
+	count := make([]int, len(all))
+	prev := -1
+	for _, e := range d {
+		t, ok := e.(*flv.Tag)
+		symapi.Assert(ok, "flv-join-only-tags")
+		i := -1
+		for k, p := range all {
+			if t == p || (t.Timestamp == p.Timestamp && len(t.Data) == len(p.Data) && t.Data[0] == p.Data[0]) {
+				i = k
+			}
+		}
+		symapi.Assert(i >= 0, "flv-join-only-stream-tags")
+		count[i]++
+		symapi.Assert(i >= prev, "flv-join-never-goes-backwards")
+		prev = i
+	}
+	for i := range all {
+		symapi.Assert(count[i] == 1, "flv-join-each-tag-exactly-once")
 	}
 	symapi.Reach("end")
 }
